@@ -74,6 +74,14 @@ def replay(ctx, path):
     jk.load()
     rec = json.load(open(path))
     t = rec["case"]
+    if str(t.get("id", "")).startswith(("mcmcmodel-", "realmcmc-")):
+        # an off-lattice problem (and its second setup_mcmc call): regenerated from its seed
+        r = gd.realize_mcmc_real({"id": str(t["id"]).replace("mcmcmodel-", ""), "seed": t["seed"]})
+        print("off-lattice problem re-executed: ok=%s first call dev_curve=%s second call: %s dev_second=%s %s" % (
+            r.get("ok"), r.get("dev_curve"), r.get("second"), r.get("dev_second"), r.get("exc", "")))
+        bad = (not r.get("ok")) or any(not (r.get(k, 0.0) <= gd.OFF_TOL) for k in ("dev_curve", "dev_obs", "dev_lnlike")) or \
+              (r.get("second") == "answered" and not (r.get("dev_second", 1e9) <= gd.OFF_TOL))
+        return 1 if bad else 0
     c = {"id": t["id"], "g": t["events"][0]["g"], "ua": t["events"][0]["ua"]}
     t2 = gd.realize_mcmc(c)
     v = ctx.validate("GaussTrace", [t2])
